@@ -3,7 +3,8 @@
    same components, anchors with the same instant AND the same zone offset; hence printing the parsed value gives the
    same text again (second conjunct of each theorem).
    The Go library is a parameter O; the theorems assume exactly the laws of [oracle_laws] (RoundTrip.v):
-     Unquote(Quote s) = s;  Quote s = dq ++ m ++ dq;  Quote s has no tab/newline/formfeed/CR and a space only if s has one;
+     Unquote(Quote s) = s;  Quote s = dq ++ m ++ dq with every dq inside m escaped by a backslash (escaped_ok);
+     Quote s has no tab/newline/formfeed/CR and a space only if s has one;
      time.Parse(Format t) = t and Format t non-empty over 0-9 T : . Z + - for t in time_dom;
      ParseFloat(%v f) = f for every non-NaN 64-bit pattern.
    Every run of checks/c05.py samples these laws on the values of the run. *)
@@ -45,7 +46,8 @@ Theorem C05_object_roundtrip : forall O, oracle_laws O -> forall o, dom_object o
 Proof. exact object_roundtrip. Qed.
 Print Assumptions C05_object_roundtrip.
 
-(* triple: subject any domain node whose type has no form feed, predicate id without a space, any domain object *)
+(* triple: subject any domain node whose type has no form feed, ANY domain predicate (after F4b also ids with spaces
+   and with text that looks like the end of a predicate), any domain object *)
 Theorem C05_triple_roundtrip : forall O, oracle_laws O -> forall t, dom_triple t = true ->
   parse_triple O (print_triple O t) = Ok t /\
   forall t', parse_triple O (print_triple O t) = Ok t' -> print_triple O t' = print_triple O t.
@@ -59,6 +61,7 @@ Example C05_domain_inhabited :
   dom_triple (mkTriple (mkNode (lit "/a>b") (lit "x] /y ""@[ ""^^type:"))
                        (mkPred (lit "a""@[b]\") (Some (mkTime 1136214245999999999 (-25200))))
                        (OLit (LText (lit "] /x> ""y""@[]""^^type:text")))) = true /\
+  dom_triple (mkTriple (mkNode (lit "/a") (lit "b")) (mkPred (lit "x] /y ""z") None) (OPred (mkPred (lit "x y""^^type:text") None))) = true /\
   dom_object (OPred (mkPred (lit "x y""^^type:text") None)) = true /\
   dom_literal (LInt (-9223372036854775808)) = true /\ dom_literal (LFloat 9223372036854775808) = true.
 Proof. repeat split; vm_compute; reflexivity. Qed.
@@ -87,13 +90,20 @@ Proof.
 Qed.
 Print Assumptions C05_literal_roundtrip_refuted.
 
-(* in a triple a predicate id containing ']' blank '/' is cut by the object-split expression (quote = plain quoting suffices) *)
-Theorem C05_triple_roundtrip_refuted : exists t, wf_triple t = true /\ parse_triple id_oracles (print_triple id_oracles t) = Err.
+(* before F4b a predicate id containing ']' blank '/' was cut by the object-split expression; now it round trips *)
+Example C05_triple_pred_id_split_fixed :
+  let t := mkTriple (mkNode (lit "/a") (lit "b")) (mkPred (lit "x] /y") None) (ONode (mkNode (lit "/c") (lit "d"))) in
+  parse_triple id_oracles (print_triple id_oracles t) = Ok t.
+Proof. vm_compute. reflexivity. Qed.
+
+(* NewType rejects space, tab, newline, CR but not form feed, which Go's regexp class \s contains: a subject type
+   containing '>' form-feed double-quote is cut by the subject-split expression *)
+Theorem C05_triple_subject_type_refuted : exists t, wf_triple t = true /\ parse_triple id_oracles (print_triple id_oracles t) = Err.
 Proof.
-  exists (mkTriple (mkNode (lit "/a") (lit "b")) (mkPred (lit "x] /y") None) (ONode (mkNode (lit "/c") (lit "d")))).
+  exists (mkTriple (mkNode [x2f; x61; x3e; x0c; x22; x62] (lit "c")) (mkPred (lit "p") None) (ONode (mkNode (lit "/d") (lit "e")))).
   split; vm_compute; reflexivity.
 Qed.
-Print Assumptions C05_triple_roundtrip_refuted.
+Print Assumptions C05_triple_subject_type_refuted.
 
 (* ---- graphs: write, then read into an empty graph.
    g : the memory graph's master index (key = UUID pre-image, consistent with its triple).  Domain: every triple in
